@@ -10,15 +10,23 @@ from harness import common
 from harness.translate import gen as G
 
 PROPERTY = "C20"
-LEAN_MODULES = ["SigpyVerif.Props.C20"]
+LEAN_MODULES = ["SigpyVerif.Props.C20", "SigpyVerif.Props.C20Rat", "SigpyVerif.Props.C20Spokes"]
 THEOREMS = ["SigpyVerif.C20." + t for t in [
     "sum_pulse", "pulse_ends", "pulse_range", "pulse_chain",
     "wave_sum", "wave_ends", "wave_range", "wave_chain", "design_meets_limits",
-    "ramppts0_spec", "trap_triangle", "trap_trapezoid", "trap_ramppts_pos", "trap_sum", "trap_area",
+    "ramppts0_eq", "ramppts0_spec", "trap_triangle", "trap_trapezoid", "trap_ramppts_pos", "trap_sum", "trap_area",
     "trap_tri_limits", "trap_trapezoid_limits", "trap_meets_limits", "trap_slew_getElem",
     "min_design_ok", "min_trap_meets_limits", "min_trap_none_iff", "floor_flat_zero_iff", "min_trap_defined",
     "ceilSqrtDiv2Ok_iff", "floorDivSqrt2Ok_iff",
     "spokes_axis_limits", "spokes_gz_limits", "blip_kspace",
+    # Props/C20Rat.lean: the Rat (driver) <-> ℝ (theorems) bridge and the ceiling-tie characterisation
+    "ratCeil_eq", "ratCeilNat_cast", "ceil_perturb_iff", "ceil_stable", "natCeil_stable",
+    "ceilSqrtDiv2Ok_cast", "floorDivSqrt2Ok_cast", "trapTriRamppts_cast", "minPts_cast", "rat_real_agree",
+    "wave_cast", "trapGrad_cast", "minTrapGrad_cast",
+    "trap_meets_limits_rat", "trap_area_rat", "min_trap_meets_limits_rat", "min_trap_defined_rat",
+    # Props/C20Spokes.lean: the generated spokes_grad assembly
+    "pySliceTo_append_zeros", "spokesStep_eq", "segOf_length", "loopState_eq", "spokes_closed_form", "spokesAxis_eq",
+    "spokes_limits", "spokes_kspace", "spokes_kspace_y", "spokes_limits_designers", "spokes_kspace_designers",
 ]]
 
 DOM = dict(area=(1e-6, 1.0), gmax=(0.1, 10.0), dgdt=(1e2, 1e5), dt=(1e-6, 1e-4))
@@ -27,7 +35,7 @@ CTOL = 1e-10         # correspondence: float sample vs exact model value (observ
 
 
 def translate(ctx):
-    G.regenerate(ctx, ["TrapGrad"])
+    G.regenerate(ctx, ["TrapGrad", "Spokes"])
 
 
 def tg():
@@ -199,55 +207,111 @@ def parse(r):
     head, smp = r[3:].split(" | ")
     d = dict(t.split("=") for t in head.split())
     out = dict(r=int(d["r"]), nflat=int(d["nflat"]), len=int(d["len"]), scale=Fr(d["scale"]), sum=Fr(d["sum"]),
-               flatsum=Fr(d["flatsum"]))
+               flatsum=Fr(d["flatsum"]), exact=(int(d["xr"]), int(d["xnflat"]), int(d["xlen"])))
     out["smp"] = [] if smp == "-" else [Fr(v) for v in smp.split(",")]
     return out
 
 
-def run_real(fn, c):
-    f = tg().trap_grad if fn == "trap" else tg().min_trap_grad
+class NpRec:
+    """stands in for the module-global `np` of trajgrad.py while one designer runs: records, in call order, the
+    doubles handed to np.ceil / np.floor / np.sqrt (np.ceil and np.floor are exact on doubles, so the integer the float
+    code obtains at a site is exactly the ceiling / floor of the recorded double)"""
+
+    def __init__(self):
+        self.ev = []
+
+    def __getattr__(self, n):
+        return getattr(np, n)
+
+    def ceil(self, x):
+        self.ev.append(("ceil", float(x)))
+        return np.ceil(x)
+
+    def floor(self, x):
+        self.ev.append(("floor", float(x)))
+        return np.floor(x)
+
+    def sqrt(self, x):
+        self.ev.append(("sqrt", float(x)))
+        return np.sqrt(x)
+
+
+def float_path(fn, ev):
+    """the float code's path through the numbered rounding sites of Gen/TrapGrad.lean -> protocol fields, or None when
+    the sequence of rounding calls is not the one of the translated source"""
+    kinds = [k for k, _ in ev]
+    X = lambda v: rs(fr(v))  # noqa
+    if fn == "trap":
+        if kinds == ["ceil", "sqrt", "ceil"]:       # triangle
+            return "hcf=%d cf=%s,x lf=1" % (max(int(math.ceil(ev[2][1])), 0), X(ev[0][1]))
+        if kinds == ["ceil", "ceil"]:               # trapezoid
+            return "cf=%s,%s lf=0" % (X(ev[0][1]), X(ev[1][1]))
+        return None
+    if kinds == ["sqrt", "floor", "ceil"]:          # not capped
+        return "hff=%d cf=x,x,x,%s lf=x,0" % (max(int(math.floor(ev[1][1])), 0), X(ev[2][1]))
+    if kinds == ["sqrt", "floor", "ceil", "ceil"]:  # capped at gmax
+        return "hff=%d cf=x,x,%s,%s lf=x,1" % (max(int(math.floor(ev[1][1])), 0), X(ev[2][1]), X(ev[3][1]))
+    return None
+
+
+def run_real(fn, c, rec=None):
+    T = tg()
+    f = T.trap_grad if fn == "trap" else T.min_trap_grad
+    old = T.np
+    if rec is not None:
+        T.np = rec
     try:
         w, r = f(c["area"], c["gmax"], c["dgdt"], c["dt"])
     except ValueError:
         return "err value"
     except Exception as e:  # noqa
         return "err %s" % type(e).__name__
+    finally:
+        T.np = old
     w = np.asarray(w, dtype=float)
     if w.ndim != 2 or w.shape[0] != 1:
         return "err shape %s" % (w.shape,)
     return w[0], int(r)
 
 
-def model_line(fn, c, idx):
+def model_line(fn, c, idx, path=""):
     a, g, s, d = exact_params(c)
     if fn == "trap":
-        return "C20 trap area=%s gmax=%s dgdt=%s dt=%s hc=%d idx=%s" % (rs(a), rs(g), rs(s), rs(d), trap_hint(c),
-                                                                       ",".join(map(str, idx)) or "-")
-    return "C20 mintrap area=%s gmax=%s dgdt=%s dt=%s hf=%d idx=%s" % (rs(a), rs(g), rs(s), rs(d), min_hint(c),
-                                                                      ",".join(map(str, idx)) or "-")
+        return "C20 trap area=%s gmax=%s dgdt=%s dt=%s hc=%d %s idx=%s" % (rs(a), rs(g), rs(s), rs(d), trap_hint(c), path,
+                                                                          ",".join(map(str, idx)) or "-")
+    return "C20 mintrap area=%s gmax=%s dgdt=%s dt=%s hf=%d %s idx=%s" % (rs(a), rs(g), rs(s), rs(d), min_hint(c), path,
+                                                                         ",".join(map(str, idx)) or "-")
 
 
 def compare(ctx, stream, fn, cases):
-    """real function vs Rat model: ramppts, length exactly; samples, Σ, flat Σ at CTOL relative."""
+    """real function vs Rat model.  The model is evaluated twice at the exact rational values of the float inputs:
+    (x) with exact ceilings / comparisons — the design `trap_meets_limits_rat` & co. are about — and (f) along the float
+    code's own path: at every numbered rounding site the ceiling is taken of the double the real code handed to np.ceil
+    (recorded while it ran).  (f) must reproduce ramppts and the length EXACTLY and the samples, Σ, flat Σ at CTOL —
+    always, ties included.  (x) may differ from (f) only if some rounding site is within 1e-9 of an integer (a rounding
+    error of a few ulp crossed it: `ceil_perturb_iff`); that is counted, and anything else is a disagreement."""
     real, lines, idxs = [], [], []
     for c in cases:
-        rr = run_real(fn, c)
+        rec = NpRec()
+        rr = run_real(fn, c, rec)
         real.append(rr)
         if isinstance(rr, tuple):
             idx = pick_idx(ctx.rng, len(rr[0]), rr[1])
         else:
             idx = []
         idxs.append(idx)
-        lines.append(model_line(fn, c, idx))
+        path = float_path(fn, rec.ev)
+        if path is None and isinstance(rr, tuple):
+            real[-1] = "err unexpected-rounding-calls %s" % [k for k, _ in rec.ev]
+        lines.append(model_line(fn, c, idx, path or ""))
     replies = ctx.driver(lines)
     bad = 0
     for c, rr, idx, ln, rep in zip(cases, real, idxs, lines, replies):
         m = parse(rep)
-        tie = near_tie(c, fn)
-        ctx.case((fn, ln), nontrivial=True, sample=dict(line=ln[:160], reply=rep[:120]) if ctx.evaluations % 41 == 0 else None)
-        ctx.count("%s:%s%s" % (fn, c.get("kind", "random"), ":near-tie" if tie else ""))
+        ctx.case((fn, ln), nontrivial=True, sample=dict(line=ln[:200], reply=rep[:160]) if ctx.evaluations % 41 == 0 else None)
+        ctx.count("%s:%s" % (fn, c.get("kind", "random")))
         if isinstance(m, str) or isinstance(rr, str):
-            if m != rr and not (tie and "bad" not in str(m)):
+            if m != rr:
                 bad += 1
                 ctx.disagree(stream, dict(fn=fn, case=c), rr if isinstance(rr, str) else "waveform", m if isinstance(m, str) else "design")
             continue
@@ -255,10 +319,20 @@ def compare(ctx, stream, fn, cases):
         ints_real = (r, len(w))
         ints_model = (m["r"], m["len"])
         if ints_real != ints_model:
-            if not tie:
-                bad += 1
-                ctx.disagree(stream, dict(fn=fn, case=c), ints_real, ints_model)
+            bad += 1
+            ctx.disagree(stream, dict(fn=fn, case=c), ints_real, ints_model)
             continue
+        if m["exact"] != (m["r"], m["nflat"], m["len"]):
+            # the float code rounded across an integer somewhere: legitimate only at a (near-)tie of a rounding site
+            ctx.count("%s:float-path-differs-from-exact-path" % fn)
+            ctx.floatpath = getattr(ctx, "floatpath", 0) + 1
+            if not near_tie(c, fn):
+                bad += 1
+                ctx.disagree(stream, dict(fn=fn, case=c), "integer outputs %s (r, nflat, len) away from any tie" % ((m["r"], m["nflat"], m["len"]),),
+                             "exact %s" % (m["exact"],))
+                continue
+        elif near_tie(c, fn):
+            ctx.count("%s:near-tie-compared-exactly" % fn)
         ctx.count("%s:shape:%s" % (fn, "with-flat" if m["nflat"] else "triangle"))
         sc = float(m["scale"])
         errs = [abs(w[i] - float(v)) for i, v in zip(idx, m["smp"])]
@@ -275,63 +349,97 @@ def compare(ctx, stream, fn, cases):
     return bad
 
 
-# ---- spokes assembly: real spokes_grad on labelled sub-waveforms vs the list model --------------
-def spokes_labelled(rng):
-    """run the real spokes_grad with min_trap_grad / trap_grad replaced by functions returning labelled
-    waveforms; returns (k, nsub, sub, blips_x, blips_y, ref, g)"""
+# ---- spokes assembly: real spokes_grad on labelled sub-waveforms vs the GENERATED assembly (Gen/Spokes.lean) ------
+def spokes_labelled(rng, outside):
+    """run the real spokes_grad with min_trap_grad / trap_grad replaced by table functions area -> labelled waveform
+    (the same area gets the same waveform); `outside`: some blips are longer than the slice-select lobe.
+    Returns (protocol line, real result or 'err value', is some blip longer than the lobe)."""
     T = tg()
     n = rng.randint(1, 6)
-    k = np.array([[rng.choice([0, 0, 1, 2, -1, 3]), rng.choice([0, 0, 1, -2, 2])] for _ in range(n)], dtype=float)
+    k = np.array([[rng.choice([0, 0, 1, 2, -1, 3, 5]), rng.choice([0, 0, 1, -2, 2, -4])] for _ in range(n)], dtype=float)
     nsub = rng.randint(3, 9)
     sub = np.arange(1, nsub + 1, dtype=float)
+    tbw, sl_thick, gts = rng.choice([2, 4, 8]), rng.choice([5.0, 3.0, 10.0, 7.5]), rng.choice([4e-6, 1e-5, 2e-6])
     label = [100]
-    calls = []
+    mtab, ttab = {}, {}
 
     def fake_min(area, gmax, dgdt, dt):
-        return sub[None, :].copy(), 2
+        if (gmax, dgdt, dt) != (4.0, 2e4, gts):
+            raise AssertionError("designer arguments")
+        mtab.setdefault(float(area), sub.copy())
+        return mtab[float(area)][None, :].copy(), 2
 
     def fake_trap(area, gmax, dgdt, dt, *a):
-        ln = rng.randint(2, nsub)
-        w = np.arange(label[0], label[0] + ln, dtype=float)
-        label[0] += 100
-        calls.append((float(area), w.copy()))
-        return w[None, :], 1
+        if (gmax, dgdt, dt) != (4.0, 2e4, gts) or a:
+            raise AssertionError("designer arguments")
+        if float(area) not in ttab:
+            ln = rng.randint(nsub + 1, 2 * nsub + 2) if (outside and rng.random() < 0.5) else rng.randint(2, nsub)
+            ttab[float(area)] = np.arange(label[0], label[0] + ln, dtype=float)
+            label[0] += 100
+        return ttab[float(area)][None, :].copy(), 1
 
     old = T.min_trap_grad, T.trap_grad
     T.min_trap_grad, T.trap_grad = fake_min, fake_trap
     try:
-        g = T.spokes_grad(k, 4, 5.0, 4.0, 2e4, 4e-6)
+        g = T.spokes_grad(k, tbw, sl_thick, 4.0, 2e4, gts)
+        real = [[Fr(float(v)) for v in row] for row in np.asarray(g, dtype=float)]
+    except ValueError:
+        real = "err value"
     finally:
         T.min_trap_grad, T.trap_grad = old
-    return k, nsub, sub, calls, g
+    L = lambda v: ",".join(rs(fr(x)) for x in v) or "-"  # noqa
+    W = lambda tab: ";".join(L(w) for w in tab.values()) or "-"  # noqa
+    line = "C20 spokes n=%d kx=%s ky=%s tbw=%s slthick=%s gts=%s mk=%s mw=%s tk=%s tw=%s" % (
+        n, L(k[:, 0]), L(k[:, 1]), rs(fr(tbw)), rs(fr(sl_thick)), rs(fr(gts)), L(mtab.keys()), W(mtab), L(ttab.keys()), W(ttab))
+    # blips actually placed (the rewinder's table entry is the last one created)
+    dk = [np.diff(np.concatenate((k[:, a], [0.0]))) / 4257 for a in (0, 1)]
+    longer = any(abs(float(v)) in ttab and len(ttab[abs(float(v))]) > nsub for a in dk for v in a if v != 0)
+    return line, real, longer, dict(k=k.tolist(), nsub=nsub, tbw=tbw, sl_thick=sl_thick, gts=gts)
 
 
-def spokes_model_lines(k, nsub, sub, calls):
-    n = len(k)
-    dx = np.diff(np.concatenate((k[:, 0], [0.0])))
-    dy = np.diff(np.concatenate((k[:, 1], [0.0])))
-    q = list(calls)
-    bx, by = [], []
-    for i in range(n):          # call order of the real code: x blip then y blip per spoke, then the rephaser
-        for lst, dd in ((bx, dx), (by, dy)):
-            if dd[i] != 0:
-                _, w = q.pop(0)
-                lst.append(",".join(str(int(np.sign(dd[i]) * v)) for v in w))
-            else:
-                lst.append("none")
-    _, ref = q.pop(0)
-    assert not q
-    L = lambda v: ",".join(str(int(x)) for x in v)  # noqa
-    return ["C20 spokesaxis nsub=%d nref=%d blips=%s" % (nsub, len(ref), ";".join(bx)),
-            "C20 spokesaxis nsub=%d nref=%d blips=%s" % (nsub, len(ref), ";".join(by)),
-            "C20 spokesgz sub=%s ref=%s n=%d" % (L(sub), L(ref), n)]
+def spokes_stream(ctx):
+    rng = ctx.rng
+    quick = ctx.tier == "quick"
+    bad = 0
+    lines, reals, metas, longs = [], [], [], []
+    for i in range(60 if quick else 400):
+        try:
+            line, real, longer, meta = spokes_labelled(rng, outside=(i % 3 == 2))
+        except Exception as e:  # noqa  (the real assembly raised something else / called the designers differently)
+            bad += 1
+            ctx.disagree("spokes", dict(stage="assembly"), "err %s %s" % (type(e).__name__, e), "waveforms")
+            continue
+        lines.append(line); reals.append(real); metas.append(meta); longs.append(longer)
+    reps = ctx.driver(lines)
+    for line, real, meta, longer, rep in zip(lines, reals, metas, longs, reps):
+        ctx.case(("spokes", line), sample=dict(line=line[:200], reply=rep[:120]) if ctx.evaluations % 23 == 0 else None)
+        if rep.startswith("ok "):
+            model = [[Fr(v) for v in part.split(",")] if part != "-" else [] for part in rep[3:].split(" | ")]
+        else:
+            model = rep
+        if not longer:
+            ctx.count("spokes:inside-domain:n=%d" % len(meta["k"]))
+        elif real == "err value":
+            # OBSERVATION (not a violation: outside the property's domain): a blip longer than everything assembled so
+            # far makes `gx[: len(gx) - len(blip)]` a negative slice; the rows get different lengths and np.vstack raises
+            ctx.count("spokes:outside-domain:vstack-raises")
+        else:
+            # OBSERVATION: a blip longer than one lobe but not longer than the assembled axis silently overwrites the
+            # tail of the previous spoke's segment
+            ctx.count("spokes:outside-domain:overwrites-previous-spoke")
+        if model != real:
+            bad += 1
+            ctx.disagree("spokes", meta, "err value" if isinstance(real, str) else [[float(v) for v in r][:12] for r in real],
+                         rep[:300])
+    return bad
 
 
 def correspond(ctx):
     ctx.rule = ("trap/mintrap: (area, gmax, dgdt, dt) floats passed to the model as their exact rational values; "
                 "log-uniform over the property's domain (30 % rounded to 2 digits), regime boundary, ceiling/floor ties "
-                "(exact dyadic ties are compared exactly, non-dyadic near-ties only on non-integer outputs), small flat "
-                "tops; distinct by protocol line; spokes: real spokes_grad on labelled sub-waveforms vs the list model")
+                "(ALL compared exactly: the model follows the float code through the doubles it rounded at each numbered site), "
+                "small flat tops; distinct by protocol line; spokes: real spokes_grad with table designers (labelled "
+                "sub-waveforms, 1/3 of the runs with blips longer than the slice-select lobe) vs the generated assembly")
     quick = ctx.tier == "quick"
     rng = ctx.rng
     maxlen = 3000 if quick else 6000
@@ -342,30 +450,25 @@ def correspond(ctx):
             cases += small_flat_cases(rng, n // 2)
         bad = compare(ctx, fn, fn, cases)
         ctx.oblige("correspondence:C20." + fn, "correspondence", bad == 0, "%d disagreements" % bad)
-    bad = 0
-    for _ in range(40 if quick else 300):
-        try:
-            k, nsub, sub, calls, g = spokes_labelled(rng)
-            lines = spokes_model_lines(k, nsub, sub, calls)
-        except Exception as e:  # noqa  (the real assembly raised / called the designers in another order)
-            bad += 1
-            ctx.disagree("spokes", dict(stage="assembly"), "err %s" % type(e).__name__, "waveforms")
-            continue
-        reps = ctx.driver(lines)
-        ctx.case(("spokes", tuple(lines)))
-        ctx.count("spokes:n=%d" % len(k))
-        for ax, rep in enumerate(reps):
-            want = rep[3:] if rep.startswith("ok ") else rep
-            got = ",".join(str(int(v)) for v in g[ax]) if g.shape[1] else "-"
-            if want != got:
-                bad += 1
-                ctx.disagree("spokes", dict(k=k.tolist(), nsub=nsub, axis=ax), got, want)
+    bad = spokes_stream(ctx)
     ctx.oblige("correspondence:C20.spokes-assembly", "correspondence", bad == 0, "%d disagreements" % bad)
     ctx.notes.append("max relative deviation real vs exact model: %.3g (tolerance %g)" % (getattr(ctx, "maxerr", 0.0), CTOL))
+    d = ctx.counts
+    ctx.notes.append("ceiling ties: %d cases where a rounding of the float code crossed an integer (float path != exact path; all at a "
+                     "rounding site within 1e-9 of an integer), %d near-tie cases where it did not; every one of them compared exactly"
+                     % (getattr(ctx, "floatpath", 0), sum(v for k, v in d.items() if k.endswith("near-tie-compared-exactly"))))
+    ctx.notes.append("spokes_grad outside its domain (a blip longer than one slice-select lobe) — observed on the real code, reproduced "
+                     "by the generated model, NOT a violation: np.vstack raises ValueError in %d runs, the blip silently overwrites "
+                     "the tail of the previous spoke's segment in %d runs" % (d.get("spokes:outside-domain:vstack-raises", 0),
+                                                                              d.get("spokes:outside-domain:overwrites-previous-spoke", 0)))
     ctx.assumptions += [
-        "IEEE rounding of the float evaluation is not modelled; at exact ceiling/floor ties of non-dyadic inputs the float code may round either way (integer outputs not compared there, the oracle still applies)",
-        "numpy linspace/concatenate/ones/sum and Python's sum are trusted to implement their specification",
-        "Rat and ℝ evaluation of + - * / < agree on rational inputs (Rat.cast is an ordered-field embedding); the square-root operations are tied by ceilSqrtDiv2Ok_iff / floorDivSqrt2Ok_iff, which the driver checks on every hint",
+        "IEEE rounding of the float evaluation is not modelled as such: the model is exact rational arithmetic on the exact values "
+        "of the float inputs; where the float code's ceiling / comparison lands on the other side of an integer (only possible "
+        "within a few ulp of a tie: ceil_perturb_iff / ceil_stable) the correspondence feeds the model the recorded double of that "
+        "site and compares exactly; the `_rat` theorems are about the exact path, the property's 1e-9 slack absorbs the other one",
+        "numpy linspace/concatenate/ones/sum/vstack and Python's sum / list slicing are trusted to implement their specification",
+        "spokes_grad: the designers are abstract in the generated assembly; tying them to min_trap_grad / trap_grad is "
+        "spokes_limits_designers (proved) + the two designer correspondence streams",
     ]
     ctx.traces = ctx.evaluations
 
@@ -448,8 +551,16 @@ def oracle_spokes(ctx, c, origin):
         dk = np.stack([np.diff(np.concatenate((k[:, a], [0.0]))) for a in (0, 1)])
         for v in np.abs(dk).ravel():
             if v > 0 and np.size(T.trap_grad(v / 4257, gmax, dgdt, dt)[0]) > nsub:
-                ctx.count("oracle:spokes:skipped-blip-longer-than-slice-select")
-                return True       # outside the domain: a blip is played during one slice-select lobe
+                # outside the domain (a blip is played during one slice-select lobe): nothing is demanded; what the real
+                # code does there is recorded as an observation
+                try:
+                    T.spokes_grad(k, c["tbw"], c["sl_thick"], gmax, dgdt, dt)
+                    ctx.count("oracle:spokes:outside-domain:returns-with-overwritten-samples")
+                except ValueError:
+                    ctx.count("oracle:spokes:outside-domain:vstack-raises-ValueError")
+                except Exception as e:  # noqa
+                    ctx.count("oracle:spokes:outside-domain:raises-%s" % type(e).__name__)
+                return True
     except Exception:
         return True               # sub-designer failures are reported by their own oracle
     try:
